@@ -220,11 +220,31 @@ impl System for LockStep {
             Some(_) => panic!("lock-step configs use unlimited scrollback or limit 0"),
         }
         if let Some(f) = self.seed {
-            for cmd in f(cfg) {
-                let op = Op::new(cmd);
-                match lock_apply(&mut st, &op) {
+            let cmds = f(cfg);
+            // a seed of cursor addressing and text only (the screen fill) is executed as one
+            // call and compared once, with its last command - on an 80x24 screen comparing
+            // after each of its ~50 commands would dominate the cost of every transition
+            let plain = cmds.len() > 1 && cmds.iter().all(|c| matches!(c, Cup(..) | Text(_)));
+            if plain && cfg.limit.is_none() {
+                let (last, head) = cmds.split_last().unwrap();
+                let text: String = head.iter().map(|c| c.spell(SP7)).collect();
+                let _ = st.vt.feed_str(&text).scrollback.count();
+                for cmd in head {
+                    if !st.model.blind(cmd) {
+                        st.dead = true;
+                    }
+                }
+                match lock_apply(&mut st, &Op::new(last.clone())) {
                     Outcome::Ok => {}
                     _ => st.dead = true,
+                }
+            } else {
+                for cmd in cmds {
+                    let op = Op::new(cmd);
+                    match lock_apply(&mut st, &op) {
+                        Outcome::Ok => {}
+                        _ => st.dead = true,
+                    }
                 }
             }
         }
